@@ -247,6 +247,39 @@ def _run(prop, tier, seed, meta, run_dir, t_start):
     trusted = list(meta.get("trusted_base", []))
     used = sorted(set(x for r in recs for x in r["used_contracts"]))
     trusted += ["assumed contract: " + u for u in used if u.startswith("extern ")]
+    seen_t = set()
+    cons = {}
+    for d0 in eng.decls:
+        if d0.kind == "func" and d0.get("constructor"):
+            f0 = ir.funcs.get(d0.attrs.get("full"))
+            txt = d0.get("constructor")[0].text.split("--")[0].strip()
+            try:
+                rt0 = eng.resolve_type_name(txt, d0.pkg) if txt else (ir.types.get(ir.under(f0["results"][0]["type"]), {}).get("elem") if f0 and f0["results"] else None)
+            except Exception:
+                rt0 = None
+            if rt0:
+                cons.setdefault(rt0, []).append(d0.name)
+    for i in idxs:
+        d = eng.decls[i]
+        fn = ir.funcs.get(d.attrs.get("full")) if d.kind == "func" else None
+        if fn and fn.get("recv"):
+            rt = ir.types.get(ir.under(fn["params"][0]["type"]), {}).get("elem")
+            td = eng.type_invs.get(rt)
+            if td is not None and rt not in seen_t:
+                seen_t.add(rt)
+                for cl in td.clauses:
+                    if cl.kind == "nonnil":
+                        how = ("proved on the constructor(s) %s (valid[...] obligations, C20 run)" % ", ".join(cons[rt])) if rt in cons else "established by constructors that are not under contract"
+                        trusted.append("data-structure validity assumed at function entry (%s): %s fields %s non-nil" % (how, td.name, cl.text.split("--")[0].strip()))
+                    elif cl.kind == "invariant" and not cl.extra.get("lock"):
+                        trusted.append("data-structure validity assumed at function entry and re-proved on exit by every function that writes the object: %s [%s]" % (td.name, cl.label))
+    for i in idxs:
+        d = eng.decls[i]
+        for cl in d.clauses:
+            if cl.kind == "after":
+                trusted.append("assumed fact about a callee outside the verified set: after %s [%s] in %s" % (cl.extra.get("pattern"), cl.label, d.name))
+            elif cl.kind == "assume":
+                trusted.append("assumed at entry of %s: %s" % (d.name, cl.text[:120]))
     ev = {
         "property_id": prop, "tier": tier, "seed": seed, "level": level, "wall_s": round(wall, 2),
         "violations": len(vseen),
